@@ -69,6 +69,8 @@ struct vs_world {
   int poll_tmo_min, poll_tmo_max;   /* over finite-timeout polls since vs_begin_call  */
   int last_fail_errno;        /* errno of the most recent failing syscall             */
   _Bool last_poll_zero;       /* most recent poll returned 0                          */
+  _Bool nb_call;              /* set by the harness after vs_begin_call: this library call is made on a non-blocking socket */
+  _Bool wb_seen;              /* the kernel answered this library call with a genuine would-block / in-progress */
   /* transfer calls that returned >= 0 since vs_begin_call, and the arguments/result of the last one */
   int xfer_calls, xfer_fd, xfer_flags;
   const void *xfer_ptr;
